@@ -166,7 +166,8 @@ class NameLookupRewriteVisitor(NodeTransformerBase):
         return super().generic_visit(node)
 
     def visit_Lambda(self, node: ast.Lambda) -> ast.AST:
-        self.scopes.append(set())
+        # The parameters of an enclosing lambda remain visible
+        self.scopes.append(set(self.scopes[-1]))
         try:
             return super().generic_visit(node)
         finally:
